@@ -281,6 +281,9 @@ class MS:
                 u = known[args[0] % len(known)]
                 c.command(b'UID STORE %d +FLAGS.SILENT (\\Deleted)' % u)
                 res = c.command(b'UID EXPUNGE %d' % u)
+                if args[1] % 2:
+                    # ... followed by one that finds nothing left to do
+                    c.command(b'EXPUNGE')
                 info['uids'] = {u}
                 info['op'] = 'uidexpunge'
                 self.labels.append('expunge-pending-for-others')
